@@ -472,13 +472,25 @@ struct TemplateCore {
                                     }
 
                                     if (!skip && !is_child) {
-                                        // Every sub tag has to sit inside the value of 'true' or of 'false'.
+                                        // Every sub tag has to sit inside the value it is rendered with:
+                                        // the first 'id' tags belong to the value that comes first.
                                         const SizeT t_start = (tag.Offset + tag.TrueOffset);
                                         const SizeT t_end   = (t_start + tag.TrueLength);
                                         const SizeT f_start = (tag.Offset + tag.FalseOffset);
                                         const SizeT f_end   = (f_start + tag.FalseLength);
+                                        const bool  true_first = (tag.TrueOffset < tag.FalseOffset);
+                                        SizeT32     s_id{0};
 
-                                        for (s_tag = tag.SubTags.First(); s_tag < s_tag_end; ++s_tag) {
+                                        if (tag.TrueOffset == tag.FalseOffset) {
+                                            // Only possible when the 16-bit offsets wrapped.
+                                            storage->Drop(SizeT{1});
+                                            skip  = true;
+                                            s_tag = s_tag_end;
+                                        } else {
+                                            s_tag = tag.SubTags.First();
+                                        }
+
+                                        for (; s_tag < s_tag_end; ++s_tag, ++s_id) {
                                             SizeT s_start{1};
                                             SizeT s_end{0}; // Any other kind of tag is not allowed here.
 
@@ -501,9 +513,11 @@ struct TemplateCore {
                                                 }
                                             }
 
+                                            const bool in_true = ((s_id < id) == true_first);
+
                                             if ((s_end < s_start) ||
-                                                !(((s_start >= t_start) && (s_end <= t_end)) ||
-                                                  ((s_start >= f_start) && (s_end <= f_end)))) {
+                                                !(in_true ? ((s_start >= t_start) && (s_end <= t_end))
+                                                          : ((s_start >= f_start) && (s_end <= f_end)))) {
                                                 storage->Drop(SizeT{1});
                                                 skip = true;
                                                 break;
